@@ -1,7 +1,7 @@
 SPECIFICATION Spec
 CONSTANT TerOnModelChange = TRUE
 CONSTANT CifChargeVerbatim = FALSE
-CONSTANT FullShapes = TRUE
+CONSTANT ShapeLevel = 2
 CONSTANT MaxAtoms = 5
 INVARIANT InvDomain
 INVARIANT InvReadBack
